@@ -221,10 +221,10 @@ theorem splitWs_quoted (n : Nat) (cs : List Choice) :
 
 /-! ### `msgstr[N]` -/
 
-theorem pyDecimal_digit : ∀ i : Fin 10, pyDecimal (digitChar i) = some i.val := by decide
-theorem digit_nonspace : ∀ i : Fin 10, pyIsSpace (digitChar i) = false := by decide
-theorem digit_ne_quote : ∀ i : Fin 10, digitChar i ≠ '"' := by decide
-theorem digit_ne_hash : ∀ i : Fin 10, digitChar i ≠ '#' := by decide
+theorem pyDecimal_digit : ∀ i : Fin 10, pyDecimal (digitChar i.val) = some i.val := by decide
+theorem digit_nonspace : ∀ i : Fin 10, pyIsSpace (digitChar i.val) = false := by decide
+theorem digit_ne_quote : ∀ i : Fin 10, digitChar i.val ≠ '"' := by decide
+theorem digit_ne_hash : ∀ i : Fin 10, digitChar i.val ≠ '#' := by decide
 
 theorem idxOf?_first (a b : List Char) (c : Char) (h : c ∉ a) : (a ++ c :: b).idxOf? c = some a.length := by
   induction a with
@@ -235,7 +235,7 @@ theorem idxOf?_first (a b : List Char) (c : Char) (h : c ∉ a) : (a ++ c :: b).
     simp [List.idxOf?, List.findIdx?_cons, hx] at this ⊢
     simp [this]
 
-theorem mxKw_nonspace (i : Fin 10) : ∀ c ∈ mxKw i, pyIsSpace c = false := by
+theorem mxKw_nonspace (i : Fin 10) : ∀ c ∈ mxKw i.val, pyIsSpace c = false := by
   intro c hc
   simp [mxKw] at hc
   rcases hc with rfl | rfl | rfl | rfl | rfl | rfl | rfl | rfl | rfl <;> first | decide | exact digit_nonspace i
@@ -245,9 +245,9 @@ theorem blank_no_quote (sep : Text) (h : Blank sep) : '"' ∉ sep := by
 
 theorem dispatch_mx (env : Env) (hsp : env.isSpace = pyIsSpace) (enc : Bytes) (n : Nat) (i : Fin 10) (sep : Text)
     (cs : List Choice) (trest : List Text) (s : PState) :
-    dispatch env enc n (mxKw i ++ (sep ++ quoted cs)) (mxKw i) trest s =
-      process env enc n .mx (mxKw i ++ (sep ++ quoted cs)) { s with lastTok := some (mxKw i) } := by
-  have h1 : (if trest.length + 1 > 1 then lookupKw (mxKw i) I18n.Generated.PolibFsm.keywords else none) = none := by
+    dispatch env enc n (mxKw i.val ++ (sep ++ quoted cs)) (mxKw i.val) trest s =
+      process env enc n .mx (mxKw i.val ++ (sep ++ quoted cs)) { s with lastTok := some (mxKw i.val) } := by
+  have h1 : (if trest.length + 1 > 1 then lookupKw (mxKw i.val) I18n.Generated.PolibFsm.keywords else none) = none := by
     split <;> simp [lookupKw, I18n.Generated.PolibFsm.keywords, mxKw]
   simp only [dispatch, h1]
   simp [mxKw]
@@ -255,24 +255,24 @@ theorem dispatch_mx (env : Env) (hsp : env.isSpace = pyIsSpace) (enc : Bytes) (n
 /-- the value polib cuts out of a `msgstr[N]` line, and the index -/
 theorem handle_mx_token (env : Env) (hdec : env.decimal = pyDecimal) (enc : Bytes) (n : Nat) (i : Fin 10) (sep : Text) (hsep : Blank sep)
     (cs : List Choice) (v : Text) (hu : unescape env enc (render cs) = some v) (s : PState) :
-    handle env enc n .mx (mxKw i ++ (sep ++ quoted cs)) s =
+    handle env enc n .mx (mxKw i.val ++ (sep ++ quoted cs)) s =
       some ({ s with cur := { s.cur with msgstrPlural := dictSet i.val v s.cur.msgstrPlural }, msgstrIndex := i.val }, true) := by
-  have hidx : (mxKw i ++ (sep ++ quoted cs)).idxOf? '"' = some (9 + sep.length) := by
-    have : mxKw i ++ (sep ++ quoted cs) = (mxKw i ++ sep) ++ '"' :: (render cs ++ ['"']) := by simp [quoted]
+  have hidx : (mxKw i.val ++ (sep ++ quoted cs)).idxOf? '"' = some (9 + sep.length) := by
+    have : mxKw i.val ++ (sep ++ quoted cs) = (mxKw i.val ++ sep) ++ '"' :: (render cs ++ ['"']) := by simp [quoted]
     rw [this, idxOf?_first _ _ '"' (by
       intro hm; simp only [List.mem_append] at hm
       rcases hm with hm | hm
       · simp [mxKw] at hm; exact absurd hm.symm (digit_ne_quote i)
       · exact blank_no_quote sep hsep hm)]
     simp [mxKw]; omega
-  have hval : ((mxKw i ++ (sep ++ quoted cs)).drop (9 + sep.length + 1)).take
-      ((mxKw i ++ (sep ++ quoted cs)).length - 1 - (9 + sep.length + 1)) = render cs := by
-    have : mxKw i ++ (sep ++ quoted cs) = (mxKw i ++ sep ++ ['"']) ++ (render cs ++ ['"']) := by simp [quoted]
+  have hval : ((mxKw i.val ++ (sep ++ quoted cs)).drop (9 + sep.length + 1)).take
+      ((mxKw i.val ++ (sep ++ quoted cs)).length - 1 - (9 + sep.length + 1)) = render cs := by
+    have : mxKw i.val ++ (sep ++ quoted cs) = (mxKw i.val ++ sep ++ ['"']) ++ (render cs ++ ['"']) := by simp [quoted]
     rw [this, List.drop_left' (by simp [mxKw]; omega)]
-    have hl : ((mxKw i ++ sep ++ ['"']) ++ (render cs ++ ['"'])).length - 1 - (9 + sep.length + 1) = (render cs).length := by
+    have hl : ((mxKw i.val ++ sep ++ ['"']) ++ (render cs ++ ['"'])).length - 1 - (9 + sep.length + 1) = (render cs).length := by
       simp [mxKw]; omega
     rw [hl]; simp
-  have hd : (mxKw i ++ (sep ++ quoted cs)).drop 7 = digitChar i :: (']' :: (sep ++ quoted cs)) := by simp [mxKw]
+  have hd : (mxKw i.val ++ (sep ++ quoted cs)).drop 7 = digitChar i.val :: (']' :: (sep ++ quoted cs)) := by simp [mxKw]
   simp only [handle, hd, hidx, hval, hu, hdec, pyDecimal_digit]
 
 /-! ### whole lines -/
@@ -351,18 +351,18 @@ theorem step_cont_line (E : Codec) (env : Env) (hsp : env.isSpace = pyIsSpace) (
 
 theorem step_mx_line (E : Codec) (env : Env) (hsp : env.isSpace = pyIsSpace) (enc : Bytes) (n : Nat) (pre : Prefix) (hpre : MsgPrefix pre)
     (i : Fin 10) (sep : Text) (hsep : sep ≠ []) (hbl : Blank sep) (g : Seg) (hg : g.Valid E) (s : PState) :
-    stepLine env enc n (kwLine pre (mxKw i) sep g) s =
-      process env enc n .mx (mxKw i ++ (sep ++ quoted g.choices)) { s with entryObsolete := pre.isObsolete, lastTok := some (mxKw i) } := by
+    stepLine env enc n (kwLine pre (mxKw i.val) sep g) s =
+      process env enc n .mx (mxKw i.val ++ (sep ++ quoted g.choices)) { s with entryObsolete := pre.isObsolete, lastTok := some (mxKw i.val) } := by
   obtain ⟨b, bs, hsepc⟩ := List.exists_cons_of_ne_nil hsep
   have hsepsp := blank_space sep hbl
   have hrest : ∀ c r, sep ++ quoted g.choices = c :: r → pyIsSpace c = true := by
     intro c r e; rw [hsepc] at e; simp at e; rw [← e.1]; exact hsepsp b (by rw [hsepc]; simp)
-  have h2 := splitWs_tok (p := pyIsSpace) 1 (mxKw i) (sep ++ quoted g.choices) (by simp [mxKw]) (mxKw_nonspace i) hrest
-  have h1 := splitWs_tok (p := pyIsSpace) 0 (mxKw i) (sep ++ quoted g.choices) (by simp [mxKw]) (mxKw_nonspace i) hrest
-  have := stepLine_msg env hsp enc n pre hpre g.lpad (mxKw i ++ (sep ++ quoted g.choices)) g.rpad hg.2.2.1 hg.2.2.2
+  have h2 := splitWs_tok (p := pyIsSpace) 1 (mxKw i.val) (sep ++ quoted g.choices) (by simp [mxKw]) (mxKw_nonspace i) hrest
+  have h1 := splitWs_tok (p := pyIsSpace) 0 (mxKw i.val) (sep ++ quoted g.choices) (by simp [mxKw]) (mxKw_nonspace i) hrest
+  have := stepLine_msg env hsp enc n pre hpre g.lpad (mxKw i.val ++ (sep ++ quoted g.choices)) g.rpad hg.2.2.1 hg.2.2.2
     (by simp [mxKw]) (by intro c r e; simp [mxKw] at e; rw [← e.1]; decide)
     (lastNot_append _ _ (by simp [quoted]) (lastNot_append _ _ (by simp [quoted]) (quoted_lastNot g.choices)))
-    (by simp [mxKw]; decide) (mxKw i) _ _ h2 h1 s
+    (by simp [mxKw]; decide) (mxKw i.val) _ _ h2 h1 s
   simp only [kwLine]
   rw [this]
   exact dispatch_mx env hsp enc n i sep g.choices _ _
